@@ -232,6 +232,7 @@ def judge_group(ctx: common.Ctx, g: dict[str, Any], res: dict[str, Any]) -> None
 
     def witness(*ids: str) -> dict[str, Any]:
         return {"option": dest, "build": g["build"], "witness_files": "vlib.c17_plan.WITNESS",
+                "group": {k: g.get(k) for k in ("dest", "kind", "build", "per_module", "config_ok", "default", "check_key", "documented")},
                 "runs": [{"plan": {k: v for k, v in plans[i].items()}, "observed": obs.get(i)} for i in ids],
                 "baseline_value": {k: bg.get(k) for k in ([g["check_key"]] if g.get("check_key") else [])}}
 
@@ -672,5 +673,15 @@ def replay(ctx: common.Ctx, rep: dict[str, Any]) -> int:
             runs = [x["plan"] for x in w["runs"]]
             (t, r), = pool.map([{"fn": T + "equiv_group", "args": {"runs": runs, "files": plan.WITNESS, "build": w.get("build", True)}}],
                                timeout=600)
-            print(json.dumps(r.get("res"), indent=1)[:8000])
-            return 0
+            if not r.get("ok"):
+                print(r)
+                return 2
+            g = dict(w.get("group") or {"dest": w["option"], "build": w.get("build", True), "check_key": w["option"], "default": None})
+            g["runs"], g["notes"] = runs, []
+            _PER_KEY.clear()
+            judge_group(ctx, g, r["res"])
+            for o in r["res"]["runs"]:
+                print(json.dumps({k: o.get(k) for k in ("id", "status", "global", "mods", "targets")}, default=str)[:1500])
+            keys = sorted({v["key"] for v in ctx.violations} | set(ctx.known_hits))
+            print("violation keys on the current tree:", keys or "none")
+            return 1 if keys else 0
